@@ -119,3 +119,11 @@ Theorem C14_refuted_q_abort_on_malformed :
     exists r, find (trie (run pinned_code ops)) T = Some r /\ In (c, q) r.
 Proof. exact refuted_q_abort_on_malformed. Qed.
 Print Assumptions C14_refuted_q_abort_on_malformed.
+
+(** ... and that is the only deviation of the modelled code: on histories in which no
+    multi-filter packet carries a malformed filter, the unchanged code (flag on) reaches
+    exactly the states of the repaired model, so all theorems above apply to it *)
+Theorem C14_unchanged_code_on_clean_histories : forall ops : list op,
+  forallb clean_op ops = true -> run pinned_code ops = run ideal ops.
+Proof. exact unchanged_code_on_clean_histories. Qed.
+Print Assumptions C14_unchanged_code_on_clean_histories.
